@@ -64,6 +64,8 @@ def dict_term(d):
             continue
         kt = str_term(k) if (is_str(k) or isinstance(k, Choice)) else str_term(str(k))
         t = ufun('v_dsnoc', Val, PyStr, Val, Val)(t, kt, val_term(x))
+    for k, x in getattr(d, 'sym', ()):
+        t = ufun('v_dsnoc', Val, PyStr, Val, Val)(t, str_term(k), val_term(x))
     return t
 
 
